@@ -39,15 +39,11 @@ Lemma T_is_source :
       (Qmult (c03_constants.MAX_TRANSMIT_WAIT c03_constants.default_transport_tuning) (inject_Z 1000000)).
 Proof. vm_compute. reflexivity. Qed.
 
-(* the length check of _append_request_block ([size_ok]) is the library's own BlockwiseTuple.is_valid_for_payload_size
-   for blocks with M=1 ... *)
-Lemma size_ok_M1_is_valid b r : b_more b = true ->
+(* the length check of _append_request_block ([size_ok]) is the library's own BlockwiseTuple.is_valid_for_payload_size,
+   translated from optiontypes.py, for every block option (M=1 and M=0, BERT or not) *)
+Lemma size_ok_is_valid b r :
   bt_is_valid_for_payload_size (b_num b) (b_more b) (b_szx b) (blen (m_payload r)) = Ok (size_ok b r).
 Proof.
-  intros Hm. unfold bt_is_valid_for_payload_size, bt_is_bert, bt_size, size_ok, b_size. rewrite Hm. cbn [bind negb orb].
-  destruct (b_szx b =? 7) eqn:E.
-  - apply Z.eqb_eq in E. rewrite E. change (2 ^ (Z.min 7 6 + 4)) with 1024.
-    destruct (blen (m_payload r) =? 1024) eqn:E2; [|reflexivity].
-    apply Z.eqb_eq in E2. rewrite E2. reflexivity.
-  - rewrite andb_false_l, orb_false_r. reflexivity.
+  unfold bt_is_valid_for_payload_size, bt_is_bert, bt_size, size_ok, is_valid_for_payload_size, b_size. cbn [bind].
+  destruct (b_szx b =? 7); destruct (b_more b); reflexivity.
 Qed.
